@@ -860,10 +860,31 @@ impl<W: Write + io::Seek> ZipWriter<W> {
         }
         self.finish_file()?;
 
+        let central_start = self.write_central_and_footer()?;
+        let writer = self.inner.get_plain();
+        let footer_end = writer.stream_position()?;
+        let sink_end = writer.seek(io::SeekFrom::End(0))?;
+        if footer_end < sink_end {
+            // The sink still holds bytes behind the end record: the tail of the previous, longer
+            // directory of an archive opened with `new_append`. A reader would find that stale end
+            // record first, so write the directory and the end records once more, ending exactly
+            // where the sink ends.
+            let size = footer_end - central_start;
+            writer.seek(io::SeekFrom::Start(sink_end - size))?;
+            self.write_central_and_footer()?;
+        }
+
+        Ok(())
+    }
+
+    /// Writes the central directory and the end records at the current position; returns where the
+    /// directory starts.
+    fn write_central_and_footer(&mut self) -> ZipResult<u64> {
+        let central_start;
         {
             let writer = self.inner.get_plain();
 
-            let central_start = writer.stream_position()?;
+            central_start = writer.stream_position()?;
             for file in self.files.iter() {
                 write_central_directory_header(writer, file)?;
             }
@@ -908,7 +929,7 @@ impl<W: Write + io::Seek> ZipWriter<W> {
             footer.write(writer)?;
         }
 
-        Ok(())
+        Ok(central_start)
     }
 }
 
